@@ -34,6 +34,20 @@ def pat_enum(arm, pname):
     return gen
 
 
+MV_PRELUDE = '''
+def _mv2(p):
+    # the set a caller received and then updated (as `acc |= p.metavars()` style code does) must not be what the next caller gets
+    r1 = p.metavars()
+    want = set(r1)
+    try:
+        r1.add(12345)
+    except AttributeError:
+        pass
+    r2 = type(p)(*[getattr(p, f) for f in p.__dataclass_fields__]).metavars()     # an equal pattern, built afresh
+    return want if set(r2) == want else r2
+'''
+
+
 def family_units(repo, cs, pid, meth, arms=None):
     units, targets, fns = [], {}, []
     c = cs['Pattern.' + meth]
@@ -41,7 +55,10 @@ def family_units(repo, cs, pid, meth, arms=None):
         f = repo.func(PM, f'{cn}.{meth}')
         name = f'{pid}/py/{cn}.{meth}'
         units.append(Unit(name, verify_unit(repo, cs, f, c, arm=cn)))
-        targets[name] = FnTarget(PM, f'{cn}.{meth}', c, arm=cn, enum=arm_enum(cn, FAMILY_OTHERS[meth]))
+        if meth == 'metavars':
+            targets[name] = FnTarget(PM, f'{cn}.{meth}', c, arm=cn, enum=arm_enum(cn, FAMILY_OTHERS[meth]), call=lambda ax: f"_mv2({ax['self']})", prelude=MV_PRELUDE)
+        else:
+            targets[name] = FnTarget(PM, f'{cn}.{meth}', c, arm=cn, enum=arm_enum(cn, FAMILY_OTHERS[meth]))
         fns.append((PFILE, f'{cn}.{meth}'))
     return units, targets, fns
 
